@@ -341,9 +341,9 @@ func nextBudget() int64 {
 			st.swIdx++
 		}
 		if st.swIdx < len(c.SwitchAt) {
-			b := c.SwitchAt[st.swIdx] - st.gyields
-			st.swIdx++
-			return b
+			// not consumed here: if the task finishes before the point is reached,
+			// the point still pre-empts whoever runs then
+			return c.SwitchAt[st.swIdx] - st.gyields
 		}
 	}
 	if len(c.SwitchAt) != 0 || c.MeanGap <= 0 {
